@@ -27,8 +27,9 @@ TECHNIQUE = ("TLA+ protocol model (mc/tla/Loop.tla, environment = operator behav
 RULE = ("one TLC run per (NREP, NGEN, LOGINIT, behaviour of the parent-selection operator, EMPTY = set of start containers that are "
         "empty dicts: none on the full grid, 2 (quick) / 4 (thorough) non-trivial sets incl. all five on a sub-grid); a programme "
         "constructed with a start state carries an InitializationOperator that would return a different state, so a spurious "
-        "re-initialisation is observable; every initial state of the model is "
-        "one environment (4^4 operator behaviours {pure,inplace,alias,mixed} x start state given directly / via InitializationOperator) "
+        "re-initialisation is observable; the deadline t_max is NGEN-1 everywhere and every value of {0,1,NGEN-1,NGEN,NGEN+3} on 5 (quick) / 9 "
+        "(thorough) grid points (chosen in the model's Init); every initial state of the model is "
+        "one environment (4^4 operator behaviours {pure,inplace,alias,mixed} x start state given directly / via InitializationOperator x t_max) "
         "and yields one behaviour (the protocol is deterministic given the environment); every maximal path of the dumped graph is "
         "replayed on the real evolve(): once as one evolve() call, once more per way of splitting NREP>=2 into two consecutive evolve() calls "
         "on the same programme and logbook (must give the same observable behaviour), and "
@@ -52,7 +53,7 @@ BEHS = ("pure", "inplace", "alias", "mixed")
 MIXED = {"genome": "pure", "geno": "inplace", "pheno": "alias", "bval": "inplace", "gmod": "pure"}   # = MixedMap of Loop.tla
 CODE = {"psel": 1, "mate": 2, "eval": 3, "ssel": 4}                                                    # = Code of Loop.tla
 INVARIANTS = ("TypeOK TimeIndex OncePerGeneration LogAfterEveryStep RepCounter McfgFresh ReplicateStartsFromStart "
-              "StartNeverModified StartCleanForHonestEnv NothingBeforeInit GivenStateIsKept").split()
+              "StartNeverModified StartCleanForHonestEnv NothingBeforeInit GivenStateIsKept TimeIgnoresDeadline").split()
 PROPERTIES = ["StepProps"]
 
 # model action label -> event the instrumented environment must observe (None: not observable from outside)
@@ -67,25 +68,36 @@ SIG = "RecurrentSelectionBreedingProgram.evolve:"
 
 # value alphabet rotated by VERIF_SEED (never the structure)
 def alphabet(seed):
-    return dict(label=["founder", "F0", "base-pop"][seed % 3], t_max=[20, 3, 0][seed % 3], rep0=[0, 4, 11][seed % 3])
+    return dict(label=["founder", "F0", "base-pop"][seed % 3], rep0=[0, 4, 11][seed % 3])
+
+
+def tmax_full(ngen):
+    """The deadlines t_max enumerated on the t_max grid points: 0, 1, NGEN-1, NGEN, NGEN+3 (non-negative ones)."""
+    return tuple(sorted({0, 1, max(ngen - 1, 0), ngen, ngen + 3}))
+
+
+def tmax_default(ngen):
+    """Elsewhere one deadline, chosen so that the time index passes it whenever there is more than one cycle."""
+    return (max(ngen - 1, 0),)
 
 
 # ============================================================================
 # TLC
-def write_cfg(path, nrep, ngen, loginit, pselbeh, empty=()):
+def write_cfg(path, nrep, ngen, loginit, pselbeh, empty=(), tmaxset=(20,)):
     with open(path, "w") as f:
         f.write("SPECIFICATION Spec\nCONSTANTS\n")
         f.write(f"  NREP = {nrep}\n  NGEN = {ngen}\n  LOGINIT = {'TRUE' if loginit else 'FALSE'}\n")
         f.write("  PSELBEH = {" + ", ".join('"%s"' % b for b in pselbeh) + "}\n")
         f.write("  EMPTY = {" + ", ".join('"%s"' % c for c in empty) + "}\n")
+        f.write("  TMAXSET = {" + ", ".join(str(int(t)) for t in tmaxset) + "}\n")
         f.write("INVARIANTS\n" + "".join(f"  {i}\n" for i in INVARIANTS))
         f.write("PROPERTIES\n" + "".join(f"  {p}\n" for p in PROPERTIES))
 
 
-def run_tlc(scratch, nrep, ngen, loginit, pselbeh, empty=()):
+def run_tlc(scratch, nrep, ngen, loginit, pselbeh, empty=(), tmaxset=(20,)):
     """Model check Loop.tla for one constant assignment inside `scratch`; return (stats, dot path)."""
     shutil.copy(TLA_FILE, os.path.join(scratch, "Loop.tla"))
-    write_cfg(os.path.join(scratch, "Loop.cfg"), nrep, ngen, loginit, pselbeh, empty)
+    write_cfg(os.path.join(scratch, "Loop.cfg"), nrep, ngen, loginit, pselbeh, empty, tmaxset)
     jtmp = os.path.join(scratch, "jtmp")
     os.makedirs(jtmp, exist_ok=True)
     env = dict(os.environ)
@@ -415,7 +427,7 @@ class LBook(Logbook):
         raise NotImplementedError("the harness logbook is never written")
 
 
-def run_impl(rec, beh, preinit, nrep, ngen, loginit, seed, strict_init=False, split=None, empty=()):
+def run_impl(rec, beh, preinit, nrep, ngen, loginit, seed, strict_init=False, split=None, empty=(), t_max=20):
     """One run of the real evolve() in the given environment, recorded in `rec` (also when evolve() raises).
     A programme constructed WITH a start state gets an InitializationOperator that would return a DIFFERENT
     (fully populated, differently labelled) state, so a spurious re-initialisation is observable."""
@@ -431,7 +443,7 @@ def run_impl(rec, beh, preinit, nrep, ngen, loginit, seed, strict_init=False, sp
         kw = {"start_" + c: d for c, d in zip(CONT, st)}
     prog = RecurrentSelectionBreedingProgram(
         initop=initop, pselop=POp(rec, beh["psel"]), mateop=MOp(rec, beh["mate"]),
-        evalop=EOp(rec, beh["eval"]), sselop=SOp(rec, beh["ssel"]), t_max=al["t_max"], **kw)
+        evalop=EOp(rec, beh["eval"]), sselop=SOp(rec, beh["ssel"]), t_max=t_max, **kw)
     rec.prog = prog
     rec.lbook = LBook(rec, al["rep0"])
     for n in ([nrep] if not split else list(split)):
@@ -461,7 +473,7 @@ def conform(rec, s0, steps, seed, empty=()):
     """Raise Violation at the first step at which the recorded trace departs from the model behaviour.
     steps: list of (action label, post-state).  Returns the number of observable calls compared."""
     al = alphabet(seed)
-    lab, rep0, t_max = al["label"], al["rep0"], al["t_max"]
+    lab, rep0, t_max = al["label"], al["rep0"], s0.get("t_max", 20)
     honest = all(b in ("pure", "inplace") for b in s0["beh"].values())
     init_content = [_model_content(lab, c, (), (), empty) for c in CONT]
     ev = rec.events
@@ -577,7 +589,7 @@ def replay_behaviour(ctx, consts, s0, steps, seed, variants=None):
     """Replay one model behaviour on the implementation in every applicable variant."""
     nrep, ngen, loginit, empty = consts
     empty = tuple(empty)
-    beh, preinit = s0["beh"], s0["preinit"]
+    beh, preinit, t_max = s0["beh"], s0["preinit"], s0.get("t_max", 20)
     todo = [("single", False, None)]
     for k in range(1, nrep):
         todo.append(("split", False, (k, nrep - k)))
@@ -587,13 +599,13 @@ def replay_behaviour(ctx, consts, s0, steps, seed, variants=None):
         todo = [t for t in todo if (t[0], t[2]) in variants]
     base_ok = True
     for vname, strict, split in todo:
-        case = dict(nrep=nrep, ngen=ngen, loginit=loginit, empty=list(empty), beh=dict(beh), preinit=preinit, variant=vname,
+        case = dict(nrep=nrep, ngen=ngen, loginit=loginit, empty=list(empty), t_max=t_max, beh=dict(beh), preinit=preinit, variant=vname,
                     split=list(split) if split else None, seed=seed, s0=s0, steps=[[l, s] for l, s in steps])
         box = {}
 
         def go():
             rec = box["rec"] = Recorder()
-            run_impl(rec, beh, preinit, nrep, ngen, loginit, seed, strict_init=strict, split=split, empty=empty)
+            run_impl(rec, beh, preinit, nrep, ngen, loginit, seed, strict_init=strict, split=split, empty=empty, t_max=t_max)
             try:
                 box["ncmp"] = conform(rec, s0, steps, seed, empty)
             except HarnessMismatch as ex:
@@ -602,13 +614,13 @@ def replay_behaviour(ctx, consts, s0, steps, seed, variants=None):
         ctx.evaluations += 1
         ok = ctx.guard(go, case=case, sig_prefix=SIG + ("strict-init:" if strict else ""))
         if "mismatch" in box:
-            raise RuntimeError(f"model/harness mismatch for {dict(beh)} preinit={preinit} NREP={nrep} NGEN={ngen} LOGINIT={loginit} EMPTY={empty} "
+            raise RuntimeError(f"model/harness mismatch for {dict(beh)} preinit={preinit} NREP={nrep} NGEN={ngen} LOGINIT={loginit} EMPTY={empty} t_max={t_max} "
                                f"[{vname}]: {box['mismatch']}")
         rec = box.get("rec")
         if rec is not None:
             ctx.transitions += rec.ncalls
             ctx.count("impl-calls", rec.ncalls)
-            ctx.outcome(hashlib.blake2b(repr([(e["ev"], e.get("t_cur"), e.get("rep"), e.get("recv", {}).get("content"),
+            ctx.outcome(hashlib.blake2b(repr([(e["ev"], e.get("t_cur"), e.get("t_max"), e.get("rep"), e.get("recv", {}).get("content"),
                                                 e.get("recv", {}).get("shares")) for e in rec.events]).encode(), digest_size=8).digest())
         ctx.count("impl-runs:" + vname)
         if ok:
@@ -631,34 +643,45 @@ EMPTY_GRID = {"quick": [(2, 1, True), (1, 0, False), (0, 1, True)],
               "thorough": [(3, 2, True), (2, 1, True), (2, 1, False), (1, 2, True), (1, 0, False), (0, 1, True)]}
 
 
+# configuration alphabet: the programme's deadline t_max.  On the grid points below every t_max in
+# {0, 1, NGEN-1, NGEN, NGEN+3} is enumerated (in the model: t_max in TMAXSET, chosen in Init); elsewhere one value,
+# NGEN-1, so that with two cycles the time index always has to pass the deadline.
+TMAX_GRID = {"quick": [(2, 2, True), (1, 2, False), (2, 1, False), (1, 1, True), (1, 0, True)],
+             "thorough": [(3, 2, True), (2, 2, True), (2, 2, False), (1, 2, True), (1, 2, False),
+                          (2, 1, True), (1, 1, False), (2, 0, True), (1, 0, False)]}
+
+
 def shards(tier, seed):
     T = tier == "thorough"
     out = []
     for nrep in ((3, 2, 1) if T else (2, 1)):
         for ngen in (2, 1, 0):
             for loginit in (True, False):
-                for b in BEHS:
-                    out.append((nrep, ngen, loginit, (b,), ()))
+                tms = tmax_full(ngen) if (nrep, ngen, loginit) in TMAX_GRID[tier] else tmax_default(ngen)
+                for tm in tms:              # one TLC run per deadline (keeps the shards of similar cost)
+                    for b in BEHS:
+                        out.append((nrep, ngen, loginit, (b,), (), (tm,)))
     for empty in EMPTY_VARIANTS[tier]:
         for nrep, ngen, loginit in EMPTY_GRID[tier]:
             for b in BEHS:
-                out.append((nrep, ngen, loginit, (b,), tuple(empty)))
+                out.append((nrep, ngen, loginit, (b,), tuple(empty), tmax_default(ngen)))
     for b in BEHS:                      # nrep = 0: evolve() only initialises
-        out.append((0, 1, True, (b,), ()))
+        out.append((0, 1, True, (b,), (), tmax_default(1)))
     return out
 
 
 def run_shard(spec, ctx):
-    nrep, ngen, loginit, pselbeh, empty = spec
+    nrep, ngen, loginit, pselbeh, empty, tmaxset = spec
     T = ctx.tier == "thorough"
     ctx.bounds.update({"NREP": [0, 1, 2, 3] if T else [0, 1, 2], "NGEN": [0, 1, 2], "LOGINIT": [True, False],
                        "operator_behaviours": list(BEHS), "operators": list(OPS), "containers": list(CONT),
                        "start_state": ["constructor", "InitializationOperator"], "container_depth": 3,
+                       "t_max": "NGEN-1 everywhere; {0, 1, NGEN-1, NGEN, NGEN+3} on (NREP,NGEN,LOGINIT) in %s" % (TMAX_GRID[ctx.tier],),
                        "empty_start_containers": [list(e) for e in [()] + EMPTY_VARIANTS[ctx.tier]],
                        "empty_start_containers_grid(NREP,NGEN,LOGINIT)": [list(g) for g in EMPTY_GRID[ctx.tier]]})
     scratch = tempfile.mkdtemp(prefix="c20_", dir=os.environ.get("VERIF_SCRATCH") or None)
     try:
-        stats, dot = run_tlc(scratch, nrep, ngen, loginit, pselbeh, empty)
+        stats, dot = run_tlc(scratch, nrep, ngen, loginit, pselbeh, empty, tmaxset)
         nodes, init, edges, nedges, texts = parse_dot(dot)
     finally:
         shutil.rmtree(scratch, ignore_errors=True)
@@ -688,6 +711,10 @@ def run_shard(spec, ctx):
         for o in OPS:
             ctx.flag(f"beh:{o}:{beh[o]}")
         ctx.flag(f"preinit:{s0['preinit']}")
+        tm = s0["t_max"]
+        ctx.flag("t_max:" + ("0" if tm == 0 else "<NGEN" if tm < ngen else "=NGEN" if tm == ngen else ">NGEN+1" if tm > ngen + 1 else "other"))
+        if ngen >= 2 and tm < ngen:
+            ctx.count("behaviours-whose-time-index-passes-the-deadline-between-cycles")
         if empty and s0["preinit"]:
             ctx.count("behaviours-given-a-start-state-with-empty-containers")
         final = steps[-1][1] if steps else s0
@@ -695,7 +722,7 @@ def run_shard(spec, ctx):
             ctx.flag("environment-corrupted-start")
             ctx.count("behaviours-where-the-environment-itself-modifies-start")
         if nrep >= 2 and any(b != "pure" for b in beh.values()):
-            ctx.nontriv(digest((ckey, beh, s0["preinit"])))
+            ctx.nontriv(digest((ckey, beh, s0["preinit"], s0["t_max"])))
         if nrep >= 2 and any(b in ("inplace", "mixed") for b in beh.values()):
             ctx.count("behaviours-with-in-place-mutation-before-a-later-replicate")
         if ctx.evaluations % 997 == 1:
@@ -729,8 +756,11 @@ def finalize(ctx, tier, seed):
     assert ctx.counters.get("behaviours-given-a-start-state-with-empty-containers", 0) >= 512
     nshard = len(shards(tier, seed))
     assert ctx.counters.get("tlc-runs", 0) == nshard, ctx.counters.get("tlc-runs")
-    nconst = nshard // len(BEHS)
-    assert ctx.counters.get("tlc-behaviours", 0) == nconst * 4 ** 4 * 2, ctx.counters.get("tlc-behaviours")
+    nexp = sum(4 ** 3 * 2 * len(sp[5]) for sp in shards(tier, seed))      # per run: 4^3 other operators x preinit x |TMAXSET|
+    assert ctx.counters.get("tlc-behaviours", 0) == nexp, (ctx.counters.get("tlc-behaviours"), nexp)
+    for f in ("0", "<NGEN", "=NGEN", ">NGEN+1"):
+        assert "t_max:" + f in ctx.flags, f
+    assert ctx.counters.get("behaviours-whose-time-index-passes-the-deadline-between-cycles", 0) >= 512
     assert ctx.counters.get("tlc-initial-states", 0) == ctx.counters.get("tlc-behaviours", 0)
     assert len(ctx.states) == ctx.counters.get("tlc-distinct-states"), (len(ctx.states), ctx.counters.get("tlc-distinct-states"))
     for v in ("single", "split", "strict-init"):
